@@ -3,7 +3,7 @@ from __future__ import annotations
 
 import ast
 
-from ..fdai import Interp, Obj, PyRaise, Unknown, explore, Imprecise, freeze, ExcVal
+from ..fdai import Interp, Obj, PyRaise, SkipPath, Unknown, explore, Imprecise, freeze, ExcVal
 from ..loader import AnchorError, short, src, walk_no_nested
 from ..rules import where, package_attr_writes, attr_writes
 
@@ -75,7 +75,10 @@ def run(p, led, tier):
         callback = None
         if cb == "callback":
             callback = Unknown("on_mutation")
-        obj = it.instantiate(genome, [], dict(genes=glist, allow_mutations=allow, on_mutation=callback, silent=True))
+        try:
+            obj = it.instantiate(genome, [], dict(genes=glist, allow_mutations=allow, on_mutation=callback, silent=True))
+        except PyRaise as e:
+            raise SkipPath(f"the constructor rejects this configuration: {e.exc!r}")     # e.g. a callback that is not callable
         it.events.clear()
         it.decisions.clear()
         return it, obj
